@@ -369,6 +369,12 @@ func (c *Chain[K, E]) WriteChain(store *stor.Stor) (uint64, Chain[K, E]) {
 	}
 	off := c.Write(store, prevOff, lastMod)
 	if off == 0 {
+		if no > 0 && merge == no {
+			// merging the whole chain and there are no items left
+			// (only tombstones), so the chain is now empty.
+			// Keeping the old chunks would bring the deleted items back.
+			return 0, Chain[K, E]{Hamt: c.Hamt, Clock: c.Clock + 1}
+		}
 		if no > 0 {
 			off = c.Offs[no-1] // nothing written, return current chain
 		}
